@@ -43,6 +43,11 @@ type srv14 struct {
 	udpAddr  string
 	tcpAddr  string
 	sockAddr string
+	// fault sequences (c14seq.go): hang up on every query (read it, record it, close the connection); outages
+	hangup atomic.Bool
+	refuse atomic.Bool // new connections are closed as soon as they are accepted
+	cmu    sync.Mutex
+	conns  map[net.Conn]struct{}
 }
 
 // what a server does with a query: NOERROR, NXDOMAIN, SERVFAIL, REFUSED, bytes that do not unpack, nothing
@@ -82,7 +87,7 @@ func (h *hub14) snapshot(qname string) (map[int]int, int) {
 }
 
 func newSrv14(id int, hub *hub14) *srv14 {
-	s := &srv14{id: id, hub: hub}
+	s := &srv14{id: id, hub: hub, conns: map[net.Conn]struct{}{}}
 	var err error
 	if s.udp, err = net.ListenPacket("udp", "127.0.0.1:0"); err != nil {
 		fatal(err)
@@ -94,7 +99,7 @@ func newSrv14(id int, hub *hub14) *srv14 {
 		fatal(err)
 	}
 	s.udpAddr, s.tcpAddr, s.sockAddr = s.udp.LocalAddr().String(), s.tcp.Addr().String(), s.socks.Addr().String()
-	go s.serveUDP()
+	go s.serveUDP(s.udp)
 	go s.accept(s.tcp, false)
 	go s.accept(s.socks, true)
 	return s
@@ -104,6 +109,15 @@ func (s *srv14) close() {
 	s.udp.Close()
 	s.tcp.Close()
 	s.socks.Close()
+}
+
+// dropConns closes every connection the server has accepted.
+func (s *srv14) dropConns() {
+	s.cmu.Lock()
+	for c := range s.conns {
+		c.Close()
+	}
+	s.cmu.Unlock()
 }
 
 // answer records the query and returns the reply bytes (nil = stay silent) and the delay to apply.
@@ -146,10 +160,10 @@ func (s *srv14) answer(raw []byte) ([]byte, time.Duration) {
 	return nil, 0
 }
 
-func (s *srv14) serveUDP() {
+func (s *srv14) serveUDP(pc net.PacketConn) {
 	buf := make([]byte, 65535)
 	for {
-		n, from, err := s.udp.ReadFrom(buf)
+		n, from, err := pc.ReadFrom(buf)
 		if err != nil {
 			return
 		}
@@ -158,9 +172,9 @@ func (s *srv14) serveUDP() {
 			continue
 		}
 		if d > 0 {
-			time.AfterFunc(d, func() { s.udp.WriteTo(rep, from) })
+			time.AfterFunc(d, func() { pc.WriteTo(rep, from) })
 		} else {
-			s.udp.WriteTo(rep, from)
+			pc.WriteTo(rep, from)
 		}
 	}
 }
@@ -171,8 +185,20 @@ func (s *srv14) accept(l net.Listener, socks bool) {
 		if err != nil {
 			return
 		}
+		if s.refuse.Load() {
+			c.Close()
+			continue
+		}
+		s.cmu.Lock()
+		s.conns[c] = struct{}{}
+		s.cmu.Unlock()
 		go func() {
-			defer c.Close()
+			defer func() {
+				c.Close()
+				s.cmu.Lock()
+				delete(s.conns, c)
+				s.cmu.Unlock()
+			}()
 			if socks && !socks5Handshake14(c) {
 				return
 			}
@@ -238,6 +264,12 @@ func (s *srv14) serveStream(c net.Conn) {
 		}
 		raw := make([]byte, binary.BigEndian.Uint16(hdr))
 		if _, err := io.ReadFull(c, raw); err != nil {
+			return
+		}
+		if s.hangup.Load() {
+			if q := new(dns.Msg); q.Unpack(raw) == nil && len(q.Question) == 1 {
+				s.hub.record(q.Question[0].Name, s.id)
+			}
 			return
 		}
 		rep, d := s.answer(raw)
